@@ -92,6 +92,9 @@ package target
 //@   requires connected: t.driver != nil
 //@   requires source != nil
 //@   let n0 = ntrace()
+//@   internal the_document_holds_the_change_only [C18]: called(ToXML, 0) && callarg(ToXML, 0, 0) == source && callarg(ToXML, 0, 1) == true &&
+//@            callarg(ToXML, 0, 2) == t.sbiConfig.NetconfOptions.IncludeNS && callarg(ToXML, 0, 3) == t.sbiConfig.NetconfOptions.OperationWithNamespace &&
+//@            callarg(ToXML, 0, 4) == t.sbiConfig.NetconfOptions.UseOperationRemove
 //@   internal empty: len(xdoc) == 0 ==> ntrace() == n0
 //@   internal silent_success_means_empty: r1 == nil && ntrace() == n0 ==> len(xdoc) == 0
 //@   internal success_sends: r1 == nil && len(xdoc) > 0 ==>
@@ -114,6 +117,9 @@ package target
 //@   requires connected: t.driver != nil
 //@   requires source != nil
 //@   let n0 = ntrace()
+//@   internal the_document_holds_the_change_only [C18]: called(ToXML, 0) && callarg(ToXML, 0, 0) == source && callarg(ToXML, 0, 1) == true &&
+//@            callarg(ToXML, 0, 2) == t.sbiConfig.NetconfOptions.IncludeNS && callarg(ToXML, 0, 3) == t.sbiConfig.NetconfOptions.OperationWithNamespace &&
+//@            callarg(ToXML, 0, 4) == t.sbiConfig.NetconfOptions.UseOperationRemove
 //@   internal empty: len(xdoc) == 0 ==> ntrace() == n0
 //@   internal silent_success_means_empty: r1 == nil && ntrace() == n0 ==> len(xdoc) == 0
 //@   internal success_sends: r1 == nil && len(xdoc) > 0 ==> ntrace() == n0 + 1 && emitted(n0) == EditConfig("running")
